@@ -78,7 +78,8 @@ def cases(draw):
     tslices = draw(st.lists(st.sampled_from([0, 1, 1, 2, 3, 7]), min_size=3,
                             max_size=8))
     return dict(spec=spec, cfg=cfg, batches=n_total, multi=multi,
-                tslices=tslices, seed=draw(st.integers(0, 2 ** 16)))
+                tslices=tslices, seed=draw(st.integers(0, 2 ** 16)),
+                stale=draw(st.sampled_from([False, False, True])))
 
 
 def digest(s):
@@ -124,6 +125,14 @@ def run_case(case, tier='quick', only_k=None):
             res.viol('evaluated-twice', 'uninterrupted', 'the reference run '
                      'itself evaluated a point twice')
         # ---- A: cut at every batch boundary, snapshots of the file
+        if case.get('stale'):
+            # an old checkpoint of an earlier (finished) computation is
+            # still lying at the path: a run started with resume=False must
+            # not be influenced by it, and neither must its checkpoints
+            os.makedirs(os.path.join(base, 'A'), exist_ok=True)
+            shutil.copyfile(R.filepath, os.path.join(
+                base, 'A', sl.ckpt_name(cfg)))
+            res.cls('stale_file_at_start')
         A = lab('A')
         marks = []       # per boundary: dict(k, digest, file, explored, ...)
         insertions = []
